@@ -295,6 +295,12 @@ class CancelScope(AbstractCancelScope):
                 delayed_task_cancel.handle.cancel()
                 delayed_task_cancel = None
 
+            # The scope may have requested task cancellations which did not end up with an exception reaching this point
+            # (e.g. the host task was shielded from cancellation all along). These requests must not outlive the scope.
+            while self.__host_task_cancel_calls and host_task.cancelling() > self.__host_task_cancelling:
+                self.__host_task_cancel_calls -= 1
+                host_task.uncancel()
+
         self._check_pending_cancellation(host_task)
 
         return self.__cancelled_caught
